@@ -18,6 +18,15 @@ class InvProp(Prop):
     def judge(self, req, impl, reply):
         if req.get("op") != "inventory":
             return super().judge(req, impl, reply)
+        if req.get("fam") == "linked_inventory" and isinstance(impl, dict) and not req.get("_masked"):
+            # which path the uri spells for an inventory behind a symlink is the textual one; it is compared between the
+            # implementation's own single and whole-inventory renders (entries_equal_single), not with the model
+            import copy
+            impl, reply = copy.deepcopy(impl), copy.deepcopy(reply)
+            for side in (impl, (reply or {}).get("model") or {}):
+                for v in (side.get("nodes") or {}).values():
+                    if isinstance(v, dict) and "ok" in v and "meta" in v["ok"]:
+                        v["ok"]["meta"]["uri"] = "<masked>"
         if isinstance(impl, dict) and "crash" in impl:
             return dict(agree=False, spec_ok=None, why="implementation crashed the process (rc=%s): %s" % (impl["crash"], impl.get("stderr", "")[-120:]), concrete=True, crash=True)
         if "bad" in reply:
